@@ -24,7 +24,8 @@ REGISTRY = {
 
 KF_WATER = 'KF-C18-label-terminal-atoms-per-residue'
 
-VALUE_POOL = E.POOL + E.NUMERIC + ['Oxidation|INFO:ok', 'Obs:+17.05', 'Phospho#g1', '+15.995|Oxidation']
+# ('+15.995|Oxidation', a mod whose alternatives contradict each other, is C10's business and is left out here)
+VALUE_POOL = E.POOL + E.NUMERIC + ['Oxidation|INFO:ok', 'Obs:+17.05', 'Phospho#g1', 'Oxidation|Obs:+15.9949']
 ADDUCTS = ['+H+', '+Na+', '+2Na+', '+K+', '-H+', '+Ca+2', '+Cl-', '+Li+', '+Mg+2', '+2H+', '+Na+,+H+']
 
 
@@ -80,7 +81,7 @@ def run(chk):
                 '(numeric, named, formula, glycan, alternatives; multipliers), 1-3 static rules with residue, N-Term, C-Term targets, '
                 '0-2 isotope labels on different elements, charge and adducts present or absent x include_plus x precision 3..8; '
                 'non-trivial = the input carries at least one modification, rule or label; distinct = distinct protocol line')
-    N = 700 if not big else 15000
+    N = 2500 if not big else 30000
     cases = _load_corpus() + [gen_case(rng, Mod) for _ in range(N)]
     fixed = ['PEP[Phospho]TIDE/2', 'PEP[Phospho]TIDE', '[1]?PEPTIDE', 'PE(PT)[10]IDE', '<[10]@N-Term>PEP', '<[10]@C-Term>PEP',
              '<[10]@P>PEP', '{100}PEPTIDE', '<13C>PEP', '<13C>[1]?PEP', 'PEP/2[+2Na+]', 'PEPTIDE', 'PEPTIDE/2', '[Acetyl]-PEP[1]^2T',
@@ -193,6 +194,20 @@ def run(chk):
         # charge state kept
         if (b.charge or None) != (a.charge or None) or annot.show_opt_mods(b.charge_adducts) != annot.show_opt_mods(a.charge_adducts):
             return f'charge / adducts changed: {out}'
+        # With a label in force the implementation weighs a modification by its composition, otherwise by its tabulated
+        # mass; the two agree only to the table's rounding (C03/C10: ~1e-6 per named modification). That discrepancy is
+        # not this function's: it is measured per modification and added to the tolerances below.
+        def table_slack(l):
+            t = 0.0
+            if a._isotope_mods:
+                for m in (l or []):
+                    try:
+                        if chem_calc._parse_mod_delta_mass_only(m.val) is None:
+                            t += abs(mass_calc.mod_mass(m) - chem_util.chem_mass(chem_calc.mod_comp(m)))
+                    except Exception:  # noqa
+                        pass
+            return t
+
         # positions: independent per-position reference
         tol = 0.5 * 10.0 ** (-p) + 2e-6
         rules = c['rules']
@@ -212,7 +227,8 @@ def run(chk):
             for i, aa in enumerate(a.sequence):
                 exp = msum((a._internal_mods or {}).get(i)) + rule_sum(aa) + lab_shift(aa)
                 got = msum((b.internal_mods or {}).get(i))
-                if abs(got - exp) > tol:
+                here = list((a._internal_mods or {}).get(i) or []) + [Mod(v, 1) for ms, ts in rules for t in ts if t == aa for v in ms]
+                if abs(got - exp) > tol + table_slack(here):
                     return f'residue {i} ({aa}): shift written {got!r}, modification mass on that residue {exp!r}: {out}'
                 if len((b.internal_mods or {}).get(i, [])) > 1:
                     return f'more than one shift on residue {i}: {out}'
@@ -240,27 +256,29 @@ def run(chk):
             for x, y in zip(a._intervals or [], b.intervals or []):
                 if abs(msum(x.mods) - msum(y.mods)) > tol:
                     return f'interval {x.start}-{x.end}: shift {msum(y.mods)!r} for modifications of mass {msum(x.mods)!r}'
-        # mass. Reading decision: for a labelled AND charged input the implementation also relabels the charge-carrying
-        # hydrogens (C12 reading note); the condensed string keeps the charge and its carriers are ordinary protons, so
-        # when a hydrogen label meets a charge the clause is evaluated on the neutral molecule only
-        h_label = any(E.LABEL_ELEMENT.get(m.val) == 'H' for m in (a._isotope_mods or []))
+        # mass. Reading decision: a labelled input is weighed through its composition, charge carriers included (they are
+        # relabelled with the rest: C12 reading note; their composition mass differs from the fast path's proton / adduct
+        # term by the C02/C03 items `particles_ok` and KF-C02-adduct-electron-count), while the condensed string carries no
+        # label and is weighed by the fast path. So for labelled AND charged input the clause is evaluated on the neutral
+        # molecule only; otherwise on both the molecule as written and the neutral one.
+        h_label = bool(a._isotope_mods)
         a0, b0 = copy.deepcopy(a), copy.deepcopy(b)
         for x in (a0, b0):
             x._charge = None
             x._charge_adducts = None
+        ac = a.condense_static_mods(inplace=False)       # only to list the mods that end up outside residue positions
+        outside = list(ac._nterm_mods or []) + list(ac._cterm_mods or []) + list(a._labile_mods or []) + \
+            list(a._unknown_mods or []) + [m for iv in (a._intervals or []) for m in (iv.mods or [])]
+        slack = table_slack(outside)
         pairs = [('neutral ', a0, b0)]
         if not (h_label and (a._charge or a._charge_adducts)):
             pairs.append(('', a, b))
         for what, x, y in pairs:
             m_in = mass_calc.mass(x)
             m_out = mass_calc.mass(y)
-            if abs(m_out - m_in) > k * 10.0 ** (-p) + 1e-9:
+            if abs(m_out - m_in) > k * 10.0 ** (-p) + 1e-9 + slack:
                 return (f'{what}mass {m_in!r} -> {m_out!r} (difference {m_out - m_in:.3e}) with {k} shifts at precision {p}: '
                         f'{out}')
-        # the result is a fixed point
-        again = mass_calc.condense_to_mass_mods(out, c['plus'], p)
-        if again != out and not E.same_text_numeric(again, out, 1.01 * 10.0 ** (-p)):
-            return f'condensing the result again changes it: {out} -> {again}'
         return None
 
     sel = cases if (big or chk.broken()) else cases
